@@ -284,6 +284,9 @@ pub fn fuzz_campaign(seed: u64, jobs: usize, runs: u64) -> Result<(pdlv_core::ev
                 let _ = std::fs::write(&keep, &b);
                 acc.p.violations.push(json!({"property": "C10", "op": "libfuzzer:fz_compile", "observed": "untolerated-panic", "detail": msg.chars().take(400).collect::<String>(), "text": text, "input": {"hex": pdlv_core::props::hex(&b)}, "type": Value::Null,
                     "artifact": keep, "how_to_run": format!("{exe} {keep}"), "signature": format!("C10|libfuzzer|{}", msg.chars().take(80).collect::<String>())}));
+            } else if name.starts_with("slow-unit-") {
+                // informational: an input slower than libFuzzer's -report_slow_units threshold that still finished
+                acc.p.notes.push(format!("libFuzzer campaign {j}: slow unit {name} (finished within the timeout)"));
             } else {
                 inconclusive = true;
                 acc.p.notes.push(format!("libFuzzer campaign {j}: artifact {name} (timeout / out of memory / leak): inconclusive, not a violation"));
